@@ -104,12 +104,17 @@ class Spawner(Process):
             return {'s': {'n_spawned': 0}}
         CTX['spawn_issued'] = True
         late = FS({'name': 'late', 'deps': [], 'c': 5})
-        return {'s': {'n_spawned': 1},
-                'gen': {'_generate': [{
-                    'key': 'c1', 'processes': {'late': late},
-                    'topology': {'late': {'s': ('..', '..', 's'),
-                                          'o': ('..', '..', 'o')}},
-                    'initial_state': {}}]}}
+        # a second deriver, declared after the first and reading its output
+        late2 = FS({'name': 'late2', 'deps': ['late'], 'c': 0})
+        wires = {'s': ('..', '..', 's'), 'o': ('..', '..', 'o')}
+        gen = {'key': 'c1', 'processes': {'late': late, 'late2': late2},
+               'topology': {'late': dict(wires), 'late2': dict(wires)},
+               'initial_state': {}}
+        if self.parameters.get('as_steps'):
+            # the same derivers under the 'steps' key, still without flow
+            gen['steps'] = gen.pop('processes')
+            gen['processes'] = {}
+        return {'s': {'n_spawned': 1}, 'gen': {'_generate': [gen]}}
 
 
 class FS(Step):
@@ -127,7 +132,12 @@ class FS(Step):
         LOG.append(('step', self.name, timestep, CTX['applies']))
         val = 1 + self.parameters['c'] * states['s']['x']
         for d in self.parameters['deps']:
-            val = val + states['o']['v_' + d]
+            dv = states['o']['v_' + d]
+            if dv is None:
+                # the variable exists but holds no value yet: the step it
+                # depends on has not been applied (shows up in the claims)
+                dv = -1000
+            val = val + dv
         upd = {'o': {'v_' + self.name: (self.name, val)}}
         if self.parameters.get('adds'):
             # the same update also changes the structure of the hierarchy
@@ -302,7 +312,8 @@ def body(ctx, cfg):
     if spawn:
         # a deriver created at run time takes part in every later phase
         processes['spawner'] = Spawner({'name': 'spawner',
-                                        'ts': ctx.int('ts', 1, 2)})
+                                        'ts': ctx.int('ts', 1, 2),
+                                        'as_steps': ctx.flag('as_steps')})
         topology['spawner'] = {'s': ('s',), 'gen': ('gen',)}
         ctx.goal('deriver created at run time')
 
@@ -383,8 +394,13 @@ def body(ctx, cfg):
     for k_ph, ph in enumerate(phases):
         runs = [en for en in ph if en[0] == 'step']
         order = [en[1] for en in runs]
-        late = ['late'] if first_late is not None and k_ph >= first_late \
-            else []
+        late = ['late', 'late2'] if first_late is not None and \
+            k_ph >= first_late else []
+        if late:
+            # derivers without flow run one at a time, in declaration order
+            seq = [en[:2] for en in ph if en[1] in ('late', 'late2')]
+            once &= seq == [('step', 'late'), ('apply', 'late'),
+                            ('step', 'late2'), ('apply', 'late2')]
         once &= sorted(order) == sorted(names + ['der_a', 'der_b'] + late)
         once &= all(en[2] == 0 for en in runs)
         pos = {}
@@ -423,6 +439,7 @@ def body(ctx, cfg):
         vals.append(EQ(row['o']['v_der_b'], 1 + (1 + 7 * x)))
         if 'v_late' in row['o']:
             vals.append(EQ(row['o']['v_late'], 1 + 5 * x))
+            vals.append(EQ(row['o'].get('v_late2'), 1 + (1 + 5 * x)))
         ctx.observe('x', x)
         for n in names:
             ctx.observe(n, row['o']['v_' + n])
